@@ -281,7 +281,7 @@ func (s *Session) setStorageCallbacks() {
 
 	s.Router.HandleIncoming(s.MessageBuilders.ResendRequestBuilder.MsgType(), func(data []byte) bool {
 		resendMsg := s.MessageBuilders.ResendRequestBuilder.New()
-		err := s.unmarshaller.Unmarshal(resendMsg, data)
+		err := s.unmarshal(resendMsg, data)
 		if err != nil {
 			s.RejectMessage(data)
 			return true
@@ -317,6 +317,26 @@ func (s *Session) setStorageCallbacks() {
 
 		return true
 	})
+}
+
+// unmarshal parses an administrative message and makes sure that it carries
+// a usable sequence number, so that a rejection can always refer to it.
+func (s *Session) unmarshal(msg messages.Builder, data []byte) error {
+	err := s.unmarshaller.Unmarshal(msg, data)
+	if err != nil {
+		return err
+	}
+
+	seqNum, err := fix.ValueByTag(data, strconv.Itoa(s.Tags.MsgSeqNum))
+	if err != nil {
+		return fmt.Errorf("the sequence number is missing: %w", err)
+	}
+
+	if _, err = strconv.Atoi(string(seqNum)); err != nil {
+		return fmt.Errorf("the sequence number is not a number: %w", err)
+	}
+
+	return nil
 }
 
 func (s *Session) SetLogonRequest(logonRequest func(*Session) error) {
@@ -390,7 +410,7 @@ func (s *Session) Run() (err error) {
 	s.Router.HandleIncoming(s.MessageBuilders.LogonBuilder.MsgType(), func(data []byte) bool {
 
 		incomingLogon := s.MessageBuilders.LogonBuilder.New()
-		err := s.unmarshaller.Unmarshal(incomingLogon, data)
+		err := s.unmarshal(incomingLogon, data)
 		if err != nil {
 			s.RejectMessage(data)
 			return true
@@ -452,7 +472,7 @@ func (s *Session) Run() (err error) {
 		return true
 	})
 	s.Router.HandleIncoming(s.MessageBuilders.LogoutBuilder.MsgType(), func(data []byte) bool {
-		err := s.unmarshaller.Unmarshal(s.MessageBuilders.LogoutBuilder.New(), data)
+		err := s.unmarshal(s.MessageBuilders.LogoutBuilder.New(), data)
 		if err != nil {
 			s.RejectMessage(data)
 			return true
@@ -482,7 +502,7 @@ func (s *Session) Run() (err error) {
 	})
 	s.Router.HandleIncoming(s.MessageBuilders.HeartbeatBuilder.MsgType(), func(data []byte) bool {
 		heartbeat := s.MessageBuilders.HeartbeatBuilder.New()
-		err := s.unmarshaller.Unmarshal(heartbeat, data)
+		err := s.unmarshal(heartbeat, data)
 		if err != nil {
 			s.RejectMessage(data)
 			return true
@@ -502,7 +522,7 @@ func (s *Session) Run() (err error) {
 	})
 	s.Router.HandleIncoming(s.MessageBuilders.TestRequestBuilder.MsgType(), func(data []byte) bool {
 		testRequest := s.MessageBuilders.TestRequestBuilder.New()
-		err := s.unmarshaller.Unmarshal(testRequest, data)
+		err := s.unmarshal(testRequest, data)
 		if err != nil {
 			s.RejectMessage(data)
 			return true
